@@ -285,6 +285,11 @@ class Check:
                 ev = evs[b[2] - 1]
                 for cl in (b[3] if isinstance(b[3], list) else [b[3]]):
                     bad.append({"tid": b[1], "line": b[2], "clause": cl, "extra": b[4:], "event": ev})
+            drift = r.printed("DRIFT")
+            if drift:
+                self.cov.setdefault("model_drift", [])
+                self.cov["model_drift"] += [{"tid": d[1], "what": d[3]} for d in drift[:20]]
+                print(f"MODEL-DRIFT: {len(drift)} record(s) satisfy the property but differ from the as-built convention of the specification ({drift[0][3]})")
             self.cov["states"] += r.distinct
             self.cov["transitions"] += r.generated
         self.cov["traces_validated_against_impl"] += len({e.get("tid") for e in events})
